@@ -13,7 +13,7 @@ fn hx(x: f64) -> String {
     format!("{:016x}", x.to_bits())
 }
 
-fn staircase_h(rng: &mut Rng, r: usize, n: usize) -> SparseMatrix {
+pub fn staircase_h(rng: &mut Rng, r: usize, n: usize) -> SparseMatrix {
     let k = n - r;
     let mut h = SparseMatrix::new(r, n);
     for c in 0..k {
